@@ -56,6 +56,8 @@ def gen_case(rng, k, thorough):
     m = rng.choice([1, 1, 2, 2, 3, 4, 5, 7, 10])
     if k % 7 == 3:
         m = [3, 4, 6, 10][(k // 7) % 4]
+    if k == 12 and not thorough:
+        n, m = 4500, 2          # one database of several thousand entries (not a multiple of any power of two) in the quick tier too
     return {"id": k, "seed": rng.randrange(1 << 30), "n": n, "m": m, "unit": [1.0, 1.0, 3e-5, 1.0, 2e-4, 1e3][k % 6],
             "skind": rng.choice(S_KINDS) if k % 7 != 3 else (rng.choice(S_KINDS) and "common"), "xkind": rng.choice(X_KINDS),
             "dups": rng.random() < 0.35, "nobs": 4 if n <= 300 else 3,
@@ -103,6 +105,8 @@ def build(case):
         x = g.choice(np.array([-1.0, 0.0, 0.5, 2.0]), size=n)
     else:
         x = g.integers(-5, 6, size=n).astype(float)
+        if case["id"] % 2:
+            x = x.astype(np.int64)        # whole-number x handed over with an INTEGER dtype: the estimates of the same values as floats
     obs = []
     for j in range(case["nobs"]):
         ok = OBS_KINDS[int(g.integers(len(OBS_KINDS)))]
